@@ -642,6 +642,146 @@ fn main() -> int {
 shadow main { assert (== (main) 0) }
 '''
 
+# bindings of every type class (parameters, immutable lets, globals, loop variable, match payloads), function values,
+# match arms, global initialisers, shadow bodies
+B8 = '''let gcfg: int = <<global-init:int|40>>
+let gname: string = <<global-init:string|"cfg">>
+let gflag: bool = <<global-init:bool|true>>
+fn ap(f: fn(int) -> int, v: int) -> int {
+    return (f v)
+}
+shadow ap { assert (== (ap i2i 1) 2) }
+fn pickfn(k: int) -> fn(int) -> int {
+    if (> k 0) {
+        return <<return-fnvalue:fn|i2i>>
+    }
+    return i2i
+}
+shadow pickfn { assert true }
+fn classes(f: fn(int) -> int, v: int, xs: array<int>, p: P, sh: Sh, c: Color, s: string, x: float, t: bool) -> int {
+    @@ fn-body ret=int par=f:fn,v:int,xs:arr,p:P,sh:Sh,c:Color,s:string,x:float,t:bool glob=gcfg:int,gname:string,gflag:bool
+    let once: int = (f v)
+    let g: fn(int) -> int = <<let-fnvalue:fn|i2i>>
+    let ys: array<int> = [v, once]
+    let q: P = P { x: v, y: once }
+    let s2: Sh = Sh.Circle { r: once }
+    let c2: Color = Color.Blue
+    let nm: string = (+ s "!")
+    let fx: float = (* x 2.0)
+    let ok: bool = (not t)
+    @@ fn-body ret=int imm=once:int,g:fn,ys:arr,q:P,s2:Sh,c2:Color,nm:string,fx:float,ok:bool par=f:fn,v:int,xs:arr,p:P,sh:Sh,c:Color,s:string,x:float,t:bool glob=gcfg:int,gname:string,gflag:bool
+    let mut acc: int = 0
+    for k in (range 0 (array_length xs)) {
+        @@ for-body ret=int imm=once:int,g:fn,ys:arr,nm:string loopvar=k:int par=f:fn,xs:arr,sh:Sh,s:string glob=gname:string
+        set acc (+ acc (at xs k))
+    }
+    match sh {
+        Circle(cc) => {
+            @@ match-arm ret=int imm=once:int,q:P,g:fn,ok:bool bind=cc:payload par=f:fn,sh:Sh,p:P,c:Color,x:float,t:bool glob=gflag:bool
+            let r1: int = <<let@match-arm:int|cc.r>>
+            let b1: bool = <<let@match-arm:bool|(> r1 2)>>
+            set acc <<set@match-arm:int|(+ acc r1)>>
+            if <<cond-if@match-arm:bool|(and b1 (> r1 100))>> {
+                return <<return@match-arm:int|r1>>
+            }
+        }
+        Sq(qq) => {
+            @@ match-arm ret=int imm=once:int,ys:arr,s2:Sh,c2:Color,nm:string,fx:float bind=qq:payload par=v:int,xs:arr,s:string glob=gcfg:int
+            let r2: int = <<let@match-arm:int|qq.s>>
+            set acc <<set@match-arm:int|(+ acc r2)>>
+            if <<cond-if@match-arm:bool|(> r2 100)>> {
+                return <<return@match-arm:int|(+ r2 1)>>
+            }
+        }
+    }
+    let h: int = (ap <<arg-fnvalue@let:fn|g>> once)
+    let pf: fn(int) -> int = (pickfn 1)
+    (println nm)
+    (println fx)
+    (println ok)
+    (println (c2i c2))
+    (println (p2i q))
+    (println (sh2i s2))
+    (println (at ys 1))
+    (println gname)
+    (println gflag)
+    return (+ (+ acc h) (+ (pf once) gcfg))
+}
+shadow classes {
+    let sp: P = P { x: 1, y: 2 }
+    let sv: int = (classes i2i 2 [1, 2] sp Sh.Sq { s: 3 } Color.Red "s" 1.5 true)
+    @@ shadow-body imm=sp:P,sv:int
+    assert (> sv 0)
+}
+fn main() -> int {
+    (println "%MARKER%")
+    let mp: P = P { x: 5, y: 6 }
+    (println (classes i2i 3 [4, 5, 6] mp Sh.Circle { r: 2 } Color.Green "ab" 0.5 false))
+    let m1: int = (ap <<arg-fnvalue@let:fn|i2i>> 4)
+    (println m1)
+    let lf: fn(int) -> int = <<let-fnvalue:fn|i2i>>
+    (println (lf 9))
+    return 0
+}
+shadow main {
+    let rc: int = (main)
+    @@ shadow-body imm=rc:int
+    assert (== rc 0)
+}
+'''
+
+# closures (nested functions) and tuples: NanoISA pipeline only - the C transpiler has no nested functions, and tuple
+# parameters do not get through the C compiler
+B9 = '''fn make_mul(factor: int, tag: string) -> fn(int) -> int {
+    let f: int = factor
+    let lbl: string = (+ tag ":")
+    let big: bool = (> factor 10)
+    fn mul(x: int) -> int {
+        @@ closure-body ret=int par=x:int cap=f:int,lbl:string,big:bool,factor:int,tag:string
+        let y: int = <<let@closure:int|(* x f)>>
+        let ok: bool = <<let@closure:bool|(or big (> y 5))>>
+        let nm: string = <<let@closure:string|(+ lbl "v")>>
+        let mut z: int = 0
+        set z <<set@closure:int|(+ y 1)>>
+        @@ closure-body ret=int imm=y:int,ok:bool,nm:string par=x:int cap=f:int,lbl:string,big:bool
+        if <<cond-if@closure:bool|(and ok (> z 1000))>> {
+            return <<return@closure:int|z>>
+        }
+        return <<return@closure:int|y>>
+    }
+    return mul
+}
+fn make_add(k: int) -> fn(int) -> int {
+    let base: int = (+ k 1)
+    fn add(x: int) -> int {
+        let w: int = <<let@closure:int|(+ x base)>>
+        @@ closure-body ret=int imm=w:int par=x:int cap=base:int,k:int
+        let mut u: int = w
+        set u <<set@closure:int|(+ u 0)>>
+        if <<cond-if@closure:bool|(< u 0)>> {
+            return <<return@closure:int|0>>
+        }
+        return <<return@closure:int|u>>
+    }
+    return add
+}
+fn pairsum(tp: (int, bool), n: int) -> int {
+    @@ fn-body ret=int par=tp:tup,n:int
+    let t2: (int, bool) = (n, true)
+    @@ fn-body ret=int imm=t2:tup par=tp:tup,n:int
+    return (+ tp.0 t2.0)
+}
+fn main() -> int {
+    (println "%MARKER%")
+    let triple: fn(int) -> int = (make_mul 3 "m")
+    (println (triple 7))
+    let add5: fn(int) -> int = (make_add 4)
+    (println (add5 10))
+    (println (pairsum (2, false) 5))
+    return 0
+}
+'''
+
 HAND_BASES = [("b1", B1), ("b2", B2), ("b3", B3), ("b4", B4), ("b5", B5)]
 
 
@@ -663,8 +803,13 @@ class Hole:
 
 
 class StmtPoint:
-    def __init__(self, idx, line, indent, blockctx, ret, imm, par):
+    def __init__(self, idx, line, indent, blockctx, ret, imm, par, extra=None):
         self.idx, self.line, self.indent, self.blockctx, self.ret, self.imm, self.par = idx, line, indent, blockctx, ret, imm, par
+        extra = extra or {}
+        self.loopvar = _pairs(extra.get("loopvar", ""))     # for-loop variables in scope (immutable, userguide ch.5)
+        self.bind = _pairs(extra.get("bind", ""))           # match payload bindings in scope
+        self.cap = _pairs(extra.get("cap", ""))             # immutable bindings of the enclosing function seen from a closure
+        self.glob = _pairs(extra.get("glob", ""))           # immutable globals declared by the base itself
 
 
 class RetLine:
@@ -680,8 +825,9 @@ class Base:
     """a parsed template; render(mutation) gives program text.
     mutation: None | ('hole', idx, pre_lines, expr) | ('stmt', idx, lines) | ('ret', idx)"""
 
-    def __init__(self, name, body, prelude=PRELUDE, kind="hand", extra_files=None, imp=None, target="p.nano"):
+    def __init__(self, name, body, prelude=PRELUDE, kind="hand", extra_files=None, imp=None, target="p.nano", tools=None):
         self.name = name
+        self.tools = tools or ["nanoc", "virt-run", "virt-emit"]    # nested functions exist in the NanoISA pipeline only
         self.kind = kind
         self.extra_files = extra_files or {}
         self.imp = imp              # import context (None = a single-file program / a generated program)
@@ -701,7 +847,7 @@ class Base:
             if m:
                 attrs = dict(a.split("=", 1) for a in m.group(3).split())
                 self.points.append(StmtPoint(len(self.points), li, m.group(1), m.group(2), attrs.get("ret"),
-                                             _pairs(attrs.get("imm", "")), _pairs(attrs.get("par", ""))))
+                                             _pairs(attrs.get("imm", "")), _pairs(attrs.get("par", "")), attrs))
                 continue
             m = RET_RE.match(l)
             if m:
@@ -755,7 +901,9 @@ class Base:
 # =========================================================================================================
 SIMPLE = ("int", "bool", "string", "float")
 LIT = {"int": ["7", "0", "42"], "bool": ["true", "false"], "string": ['"zq"', '""'], "float": ["2.5"],
-       "P": ["P { x: 0, y: 0 }"], "Color": ["Color.Red"], "Sh": ["Sh.Sq { s: 1 }"]}
+       "P": ["P { x: 0, y: 0 }"], "Color": ["Color.Red"], "Sh": ["Sh.Sq { s: 1 }"],
+       # type classes used by the immutable-binding matrix: array<int>, (int, bool), fn(int) -> int
+       "arr": ["[1, 2]", "[]"], "tup": ["(1, true)"], "fn": ["i2i"]}
 # literals / well-typed expressions whose type certainly differs from the slot's (no int<->enum, see notes)
 WRONG = {
     "int": ['"zq"', "true", '"7"', "2.5", "(i2s 1)", "(i2b 1)", "P { x: 1, y: 2 }"],
@@ -765,6 +913,8 @@ WRONG = {
     "P": ["7", '"zq"', "true"],
     "Sh": ["7", "true", '"zq"'],
     "Color": ['"zq"', "true", "2.5"],
+    # a slot of type fn(int) -> int: non-functions, and functions of another signature
+    "fn": ["7", '"zq"', "true", "s2i", "ii2i"],
 }
 SUF = {"int": "i", "bool": "b", "string": "s", "float": "f", "P": "p"}
 
@@ -960,7 +1110,16 @@ EXPR_CONTEXTS = ["let", "set", "return", "cond-if", "cond-while", "arg-user@let"
                  "operand@println", "elem@let", "field@let", "expr-stmt", "let@shadow", "arg-println@shadow"]
 ANYOK_CONTEXTS = {"arg-println", "expr-stmt", "arg-println@shadow"}        # the slot itself accepts a value of any type
 # call-shaped entries only in expr-stmt (an operator expression / a bare name as a statement is a different error)
-STMT_CONTEXTS = ["fn-body", "if-then", "if-else", "while-body", "for-body", "nested"]
+STMT_CONTEXTS = ["fn-body", "if-then", "if-else", "while-body", "for-body", "nested", "match-arm", "shadow-body", "closure-body"]
+CLASSIC_STMT_CONTEXTS = {"fn-body", "if-then", "if-else", "while-body", "for-body", "nested", "match-arm"}
+# Further places a violating expression can sit (closure = body of a nested function, NanoISA pipeline only).  Only rules
+# that are rejected in the corresponding plain context are instantiated there (the point is the PLACE, not the rule).
+NEW_EXPR_CONTEXTS = ["let@closure", "set@closure", "return@closure", "cond-if@closure", "let@match-arm", "set@match-arm",
+                     "return@match-arm", "cond-if@match-arm", "global-init", "let-fnvalue", "arg-fnvalue@let", "return-fnvalue"]
+NEW_CONTEXT_RULES = ["type-mismatch", "unknown-var", "unknown-fn", "operand-arith", "operand-neg", "arity-builtin",
+                     "undefined-field", "scope-other-function"]
+# assignment to every kind of immutable binding x type class of the binding
+BINDING_KINDS = ["param", "let", "global", "loop-variable", "match-binding", "closure-param", "closure-let", "closure-capture"]
 RET_SHAPES = ["only", "after-if", "then-branch", "else-branch", "nested-else", "after-while"]
 
 
@@ -984,6 +1143,8 @@ def expr_variants(rule, fn, ctx, T, D):
         return out
     if rule == "type-mismatch" and ctx in ANYOK_CONTEXTS:
         return []
+    if ctx == "global-init":
+        return [v for v in fn(T, D) if not v[1]]      # nothing can be inserted in front of a global
     if rule in ANYTYPE_RULES:
         return fn(T, D)
     if ctx in ANYOK_CONTEXTS:
@@ -1028,6 +1189,24 @@ def stmt_variants(rule, pt):
                                               "    Tri(zq) => { set gmut 0 }", "}"]))
         out.append(("extra arm circle (case)", ["let zs: Sh = Sh.Sq { s: 1 }", "match zs {", "    Circle(zc) => { set gmut zc.r }",
                                                 "    Sq(zq) => { set gmut zq.s }", "    circle(zn) => { set gmut 1 }", "}"]))
+    return out
+
+
+def binding_variants(kind, cls, pt):
+    """`set <name> <value of the binding's own type>` for every binding of this kind and type class visible at pt"""
+    closure = pt.blockctx == "closure-body"
+    src = {"param": [] if closure else pt.par, "let": [] if closure else pt.imm, "global": pt.glob + [("gimm", "int")],
+           "loop-variable": pt.loopvar, "match-binding": pt.bind, "closure-param": pt.par if closure else [],
+           "closure-let": pt.imm if closure else [], "closure-capture": pt.cap}[kind]
+    out = []
+    for n, T in src:
+        if T != cls:
+            continue
+        if kind == "match-binding":
+            out.append(("set %s %s" % (n, n), ["set %s %s" % (n, n)]))      # the payload has no literal of its own type
+            continue
+        for v in LIT.get(T, [])[:2]:
+            out.append(("set %s:%s = %s" % (n, T, v), ["set %s %s" % (n, v)]))
     return out
 
 
@@ -1538,6 +1717,8 @@ def build_cells(bases, nsites, rng_for):
             if context == "expr-stmt":
                 vs0 = expr_variants(rule, fn, context, None, None)
                 for pt in b.points:
+                    if pt.blockctx not in CLASSIC_STMT_CONTEXTS:
+                        continue
                     cands.append((b, "p%d" % pt.idx, "stmt point %d (%s)" % (pt.idx, pt.blockctx),
                                   [(vn, ("stmt", pt.idx, list(pre) + [e])) for vn, pre, e in vs0]))
             else:
@@ -1563,7 +1744,22 @@ def build_cells(bases, nsites, rng_for):
             pick(rule, context, expr_cands(rule, context, bases))
     for rule in STMT_RULES:
         for context in STMT_CONTEXTS:
+            if rule == "match-undefined-variant" and context in ("shadow-body", "closure-body", "match-arm"):
+                continue
             pick(rule, context, stmt_cands(rule, context, bases))
+    for rule in NEW_CONTEXT_RULES:
+        for context in NEW_EXPR_CONTEXTS:
+            pick(rule, context, expr_cands(rule, context, bases))
+    for kind in BINDING_KINDS:
+        for cls in ("int", "string", "bool", "float", "arr", "P", "Sh", "Color", "tup", "fn", "payload"):
+            cands = []
+            for b in bases:
+                for pt in b.points:
+                    if pt.blockctx == "shadow-body":
+                        continue
+                    cands.append((b, "p%d" % pt.idx, "stmt point %d (%s)" % (pt.idx, pt.blockctx),
+                                  [(vn, ("stmt", pt.idx, lines)) for vn, lines in binding_variants(kind, cls, pt)]))
+            pick("set-immutable-binding", "%s:%s" % (kind, cls), cands)
     # import dimension: context names are "<context>+<import context>"
     for ic in IMPORT_CONTEXTS:
         bs = [b for b in all_bases if b.imp == ic]
@@ -1617,6 +1813,8 @@ def control_mutants(bases):
 def make_bases(ctx):
     bases = [Base(n, t) for n, t in HAND_BASES]
     bases.append(Base("b6", returns_base(False)))
+    bases.append(Base("b8", B8))
+    bases.append(Base("b9", B9, tools=["virt-run", "virt-emit"]))
     bases += import_bases(HAND_BASES)
     if os.environ.get("NLV_C05_ALL"):
         bases.append(Base("b7", returns_base(True)))
@@ -1645,9 +1843,9 @@ def run(ctx):
             i, (name, b, mut) = item
             d = sc.sub("ctl/%03d" % i)
             write_files(d, b.files(mut))
-            obs = [run_tool(fl, t, d) for t in TOOLS]
+            obs = [run_tool(fl, t, d) if t in b.tools else None for t in TOOLS]
             native = None
-            if obs[0].artifact:
+            if obs[0] is not None and obs[0].artifact:
                 native = sh([os.path.join(d, "t.bin")], cwd=d, cpu=20)
             return name, b, mut, obs, native
 
@@ -1658,15 +1856,15 @@ def run(ctx):
         for name, b, mut, obs, native in pmap(do_control, list(enumerate(ctl))):
             # accepted = no diagnostic, exit 0 (a generated program may end with an exit status of its own under --run),
             # both output files written, the marker printed by the VM and by the native binary
-            ok = (all(o.cls == "silently-built" and not o.sig for o in obs) and obs[0].rc == 0 and obs[2].rc == 0
-                  and (obs[1].rc == 0 or b.kind == "gen") and obs[0].artifact and obs[2].artifact
-                  and obs[1].marker and native is not None and MARKER in native.text())
+            ok = (all(o.cls == "silently-built" and not o.sig for o in obs if o) and obs[2].rc == 0
+                  and (obs[1].rc == 0 or b.kind == "gen") and obs[2].artifact and obs[1].marker
+                  and (obs[0] is None or (obs[0].rc == 0 and obs[0].artifact and native is not None and MARKER in native.text())))
             n_ctl += 1
             if ok:
                 if mut is None:
                     good_bases.append(b)
                 continue
-            why = "; ".join("%s: %s rc=%s %s" % (o.tool, o.cls, o.rc, (o.diag or [""])[0][:100]) for o in obs)
+            why = "; ".join("%s: %s rc=%s %s" % (o.tool, o.cls, o.rc, (o.diag or [""])[0][:100]) for o in obs if o)
             if b.kind == "gen" and mut is None:
                 dropped.append(b.name + " (" + why[:160] + ")")     # a generated program outside the engines' clean zone
                 continue
@@ -1688,7 +1886,7 @@ def run(ctx):
         def do_mutant(m):
             d = sc.sub("m/%05d" % m.n)
             write_files(d, m.base.files(m.mut))
-            m.obs = [run_tool(fl, t, d) for t in TOOLS]
+            m.obs = [run_tool(fl, t, d) if t in m.base.tools else None for t in TOOLS]
             # evidence only: did nanoc run the shadow tests (compile-time execution) of a program it later rejected?
             return m
 
@@ -1711,6 +1909,8 @@ def run(ctx):
                 classes = {}
                 for m in ms:
                     o = m.obs[ti]
+                    if o is None:
+                        continue
                     n_runs += 1
                     if o.cls == "inconclusive":
                         n_inconcl += 1
@@ -1723,7 +1923,7 @@ def run(ctx):
                 if classes:
                     executed_cells.add((rule, context, tool))
                     cell_hist["all-sites-rejected" if all(c in GOOD for c in classes) else "some-site-not-rejected"] += 1
-                row.append("/".join(sorted(LETTER[c] for c in classes)) or "?")
+                row.append("/".join(sorted(LETTER[c] for c in classes)) or ("-" if all(m.obs[ti] is None for m in ms) else "?"))
                 for cls, cms in sorted(classes.items()):
                     if cls not in BAD and cls != "crashed-after-diagnostic":
                         continue
@@ -1754,7 +1954,7 @@ def run(ctx):
                                           "virt-run": o.cls, "diagnostic": (o.diag or ["-"])[0][:140]}
                 if len(samples) < 12 and (len(samples) % 2 == 0) == (o.cls in GOOD):
                     samples.append({"cell": "%s|%s" % (rule, context), "base": m.base.name, "line": ln, "mutant": " // ".join(new)[:160],
-                                    "outcomes": {t: m.obs[i].cls for i, t in enumerate(TOOLS)}})
+                                    "outcomes": {t: m.obs[i].cls for i, t in enumerate(TOOLS) if m.obs[i]}})
 
         if os.environ.get("NLV_C05_DUMP"):
             import json
@@ -1763,14 +1963,14 @@ def run(ctx):
                     ln, new, old = mutated_line(m.base, m.mut)
                     json.dump({"rule": m.rule, "context": m.context, "base": m.base.name, "variant": m.variant, "where": m.where,
                                "mut": m.mut, "kind": m.base.kind, "line": ln,
-                               "files": m.base.files(m.mut) if m.base.kind == "gen" and any(o.cls in BAD for o in m.obs) else None, "new": new, "old": old,
+                               "files": m.base.files(m.mut) if m.base.kind == "gen" and any(o.cls in BAD for o in m.obs if o) else None, "new": new, "old": old,
                                "obs": [{"tool": o.tool, "cls": o.cls, "stage": o.stage, "rc": o.rc, "sig": o.sig, "art": o.artifact,
-                                        "marker": o.marker, "diag": o.diag[:3], "err": o.err[-600:]} for o in m.obs]}, f)
+                                        "marker": o.marker, "diag": o.diag[:3], "err": o.err[-600:]} for o in m.obs if o]}, f)
                     f.write("\n")
         ctx.require(not parse_errors, "catalogue entries that do not parse (a mutant must be ill-formed by a static rule, "
                     "not syntactically): %s" % parse_errors[:5])
         ctx.require(n_inconcl <= 0.02 * max(1, n_runs), "%d of %d runs hit the watchdog" % (n_inconcl, n_runs))
-        n_cells_expected = 3 * len([k for k, v in cells.items() if v])
+        n_cells_expected = len({(k, t) for k, v in cells.items() for m in v for t in m.base.tools})
         if not ctx.violations:
             ctx.require(len(executed_cells) == n_cells_expected, "only %d of %d cells have a conclusive site" % (len(executed_cells), n_cells_expected))
             ctx.require(len(executed_cells) >= 600, "cell table too small: %d" % len(executed_cells))
